@@ -71,9 +71,9 @@ type caseSpec struct {
 	content []byte
 }
 
-var kinds = []string{"t.request", "t.request", "t.request", "t.cancel", "t.cancelpiece", "t.have", "t.donthave", "t.interested", "t.pexadd", "t.pexdel",
+var kinds = []string{"r.choke-lazy", "t.request", "t.request", "t.request", "t.cancel", "t.cancelpiece", "t.have", "t.donthave", "t.interested", "t.pexadd", "t.pexdel",
 	"r.choke", "r.unchoke", "r.unchoke", "r.have", "r.bitfield", "r.haveall", "r.havenone", "r.donthave", "r.allowedfast", "r.reject", "r.piece", "r.piece", "r.piece",
-	"sleep", "sleep", "sleep", "r.pause", "r.unpause", "t.storm"}
+	"sleep", "sleep", "sleep", "r.pause", "r.unpause", "t.storm", "t.rerequest", "t.rerequest"}
 
 func genCase(rt *rapid.T) caseSpec {
 	var c caseSpec
@@ -134,6 +134,7 @@ type model struct {
 	reqq        int64
 	pexTold     map[netip.AddrPort]bool
 	trace       []string
+	dropped     []uint32 // blocks the peer gave back most recently
 	labels      map[string]bool
 	nreq        int
 	exitAccounted bool
@@ -417,6 +418,11 @@ func run(c caseSpec) (fail string, m *model, hist []string) {
 			switch e := e.(type) {
 			case peer.TorDrop:
 				m.commanded[m.chunkOf(e.Index, e.Begin)]--
+				// what a scheduler does with a block it gets back: ask again
+				m.dropped = append(m.dropped, m.chunkOf(e.Index, e.Begin))
+				if len(m.dropped) > 64 {
+					m.dropped = m.dropped[len(m.dropped)-64:]
+				}
 			case peer.TorData:
 				m.commanded[m.chunkOf(e.Index, e.Begin)]--
 			}
@@ -524,6 +530,23 @@ func run(c caseSpec) (fail string, m *model, hist []string) {
 					m.commanded[ch]--
 				}
 			}
+		case "t.rerequest":
+			// the blocks the peer has just given back (choked away, timed out,
+			// rejected) are asked for again, as the scheduler does at its next pass
+			if len(m.dropped) == 0 {
+				continue
+			}
+			chunks := append([]uint32(nil), m.dropped[max(0, len(m.dropped)-1-s.A%8):]...)
+			m.dropped = nil
+			for _, ch := range chunks {
+				m.commanded[ch]++
+			}
+			m.labels["blocks-given-back-are-asked-for-again"] = true
+			if !a.Cmd(peer.PeerRequest{Chunks: chunks}) {
+				for _, ch := range chunks {
+					m.commanded[ch]--
+				}
+			}
 		case "t.cancel":
 			var ch uint32
 			if ks := m.sortedKeys(); len(ks) > 0 {
@@ -565,6 +588,12 @@ func run(c caseSpec) (fail string, m *model, hist []string) {
 				lastPexChange = time.Now()
 			}
 			pexWant[p.Addr] = true
+			// the flags of a known peer change when its extended handshake arrives
+			// (encryption, upload-only): the same address is announced again
+			if s.I%3 == 1 {
+				p.Flags ^= 1 << uint(s.I/3%5)
+				m.labels["pex-readd-with-other-flags"] = true
+			}
 			a.Cmd(peer.PeerPex{Peers: []pex.Peer{p}, Add: true})
 		case "t.pexdel":
 			p := pool[s.A%len(pool)]
@@ -575,6 +604,9 @@ func run(c caseSpec) (fail string, m *model, hist []string) {
 				}
 			}
 			delete(pexWant, p.Addr)
+			if s.I%2 == 1 {
+				p.Flags = 0 // tor.delPeer reports a departure by address only
+			}
 			a.Cmd(peer.PeerPex{Peers: []pex.Peer{p}, Add: false})
 		case "r.choke":
 			if m.lastQueue > 0 && c.caps.Fast {
@@ -599,6 +631,18 @@ func run(c caseSpec) (fail string, m *model, hist []string) {
 					}
 				}
 			}
+		case "r.choke-lazy":
+			// a fast peer whose rejects lag behind its Choke (they arrive with later
+			// r.reject steps, or the blocks still arrive): until then the requests
+			// are outstanding, and must not be sent a second time
+			if !c.caps.Fast {
+				continue
+			}
+			m.unchoked = false
+			if len(m.outstanding) > 0 {
+				m.labels["fast-choke-rejects-lag-behind"] = true
+			}
+			a.R.Send(ref.Msg{Kind: ref.KChoke})
 		case "r.unchoke":
 			if !m.unchoked && m.nreq > 0 {
 				m.labels["choke-unchoke-alternation"] = true
